@@ -119,6 +119,32 @@ theorem det_ne_zero_of_guard_mul {d t s : α} (h : 1 ≤ |d| ∨ |s| < |d| * t) 
   · simp at h; linarith
   · simp at h; exact absurd h (not_lt.mpr (abs_nonneg s))
 
+/-- a guard `|s| < |d| / tmin` says that the quotient the code is about to form, `s / d`, is below `1 / tmin` in magnitude -/
+theorem guard_iff_quot_lt {s d tmin : α} (hd : d ≠ 0) (ht : 0 < tmin) : |s| < |d| / tmin ↔ |d⁻¹ * s| < 1 / tmin := by
+  have hdp : 0 < |d| := abs_pos.mpr hd
+  rw [abs_mul, abs_inv, lt_div_iff₀ ht, lt_div_iff₀ ht, inv_mul_eq_div, div_mul_eq_mul_div, div_lt_iff₀ hdp, one_mul]
+
+/-- all guards of a block pass ⇔ every entry of the exact inverse of that block is below `1 / tmin` in magnitude -/
+theorem guards_iff_inverse_entries_lt {n : Type} [Fintype n] [DecidableEq n] (A : Matrix n n α) (tmin : α) (ht : 0 < tmin)
+    (hd : A.det ≠ 0) :
+    (∀ i j, |A.adjugate i j| < |A.det| / tmin) ↔ ∀ i j, |(A.det⁻¹ • A.adjugate) i j| < 1 / tmin := by
+  refine forall_congr' fun i => forall_congr' fun j => ?_
+  rw [Matrix.smul_apply, smul_eq_mul]
+  exact guard_iff_quot_lt hd ht
+
+/-- for `det A ≠ 0`: `if P then det⁻¹ • adjugate else 1` is the true inverse exactly when `P` holds (the identity is the
+inverse of the identity only, and `|det 1| = 1` takes the unguarded branch) -/
+theorem ite_eq_inverse_iff {n : Type} [Fintype n] [DecidableEq n] (A : Matrix n n α) (hd : A.det ≠ 0) (P : Prop) [Decidable P]
+    (hP : 1 ≤ |A.det| → P) : (if P then A.det⁻¹ • A.adjugate else 1) = A.det⁻¹ • A.adjugate ↔ P := by
+  by_cases h : P
+  · simp [h]
+  · rw [if_neg h]
+    simp only [h, iff_false]
+    intro h1
+    have h2 := (mul_inv_smul_adjugate A hd).1
+    rw [← h1, Matrix.mul_one] at h2
+    exact h (hP (by rw [h2, Matrix.det_one, abs_one]))
+
 /-- with a zero determinant neither `|r| ≥ 1` nor any guard `|r| / tmin > |s|` holds -/
 theorem not_guard_of_det_zero {tmin s : α} : ¬ ((1 : α) ≤ |(0 : α)| ∨ |s| < |(0 : α)| / tmin) := by
   simp
